@@ -114,6 +114,16 @@ func H_C19_html() {
 		t.Pieces.MetadataComplete(16384, 16384)
 		vDead = vBool("dead")
 		torrentEntry(context.Background(), w, t, nil)
+	case 5:
+		// a connected peer's row: the client version comes from the extended handshake (known-peer
+		// record) or is derived from the peer id
+		t := &tor.Torrent{Hash: h}
+		t.Pieces.MetadataComplete(16384, 16384)
+		id := vBytes("id", 20)
+		vAssume(len(id) == 20)
+		vKnownVersion = vString("version", 3)
+		vHasKnown = vBool("known")
+		hpeer(w, &peer.Peer{Id: id[:20]}, t)
 	case 4:
 		// the peers page of a torrent whose name, tracker URL, tracker error text and web-seed URL
 		// are attacker-controlled
@@ -177,3 +187,20 @@ func (w *vWs) Count() int           { return 0 }
 
 func vGetPeers(t *tor.Torrent) ([]*peer.Peer, error)   { return nil, nil }
 func vGetKnowns(t *tor.Torrent) ([]known.Peer, error) { return nil, nil }
+
+var vKnownVersion string
+var vHasKnown bool
+
+func vGetKnown(t *tor.Torrent, id hash.Hash, addr netip.AddrPort) (*known.Peer, error) {
+	if !vHasKnown {
+		return nil, nil
+	}
+	return &known.Peer{Addr: netip.AddrPortFrom(netip.AddrFrom4([4]byte{10, 0, 0, 1}), 1), Version: vKnownVersion}, nil
+}
+func vPeerStats(p *peer.Peer) *peer.PeerStats {
+	if vBool("peer-dead") {
+		return nil
+	}
+	return &peer.PeerStats{Unchoked: vBool("s1"), AmInterested: vBool("s2"), AmUnchoking: vBool("s3"), Interested: vBool("s4"), Seed: vBool("s5"), UploadOnly: vBool("s6"), HasProxy: vBool("s7"),
+		Rlen: vInt("rlen"), Qlen: vInt("qlen"), NumPex: vInt("npex")}
+}
